@@ -1,134 +1,319 @@
-use crate::{gen::*, dump, Case};
+//! Suites over well-formed replays: generators, real-code execution, implementation-level oracles.
+use crate::{dump, gen::*, spec, Case, Ctx};
+use peppi::frame::immutable as im;
+use peppi::frame::Rollbacks;
+use peppi::game::immutable::Game;
+use peppi::io::slippi;
 use std::io::Cursor;
 use std::str::FromStr;
-use peppi::io::slippi;
-use peppi::frame::Rollbacks;
 
-fn hex(b: &[u8]) -> String { b.iter().map(|x| format!("{:02x}", x)).collect() }
-pub const VERS: [V; 31] = [(0,1,0),(0,2,0),(1,0,0),(1,2,0),(1,3,0),(1,4,0),(1,5,0),(2,0,0),(2,1,0),(2,2,0),(3,0,0),(3,2,0),(3,3,0),(3,5,0),(3,6,0),(3,7,0),(3,8,0),(3,9,0),(3,10,0),(3,11,0),(3,12,0),(3,13,0),(3,14,0),(3,15,0),(3,16,0),(3,17,0),(4,0,0),(2,255,0),(1,255,3),(0,255,0),(3,4,7)];
+pub fn hex(b: &[u8]) -> String { let mut s = String::with_capacity(b.len() * 2); for x in b { s.push_str(&format!("{:02x}", x)); } s }
+pub const MAXV: V = (3, 16, 0);
 
-pub fn run(suite: &str, seed: u64, n: usize, out: &mut Vec<Case>) {
-    let mut rng = Rng(0x9E3779B97F4A7C15 ^ seed.wrapping_mul(0x2545F4914F6CDD1D) ^ (suite.len() as u64) << 40);
-    match suite { "ver" => ver(&mut rng, n, out), "roll" => roll(&mut rng, n, out), "read" => read(&mut rng, n, out), "arrow" => arrow(&mut rng, n, out), "start" => start(&mut rng, n, out), "ubj" => ubj(&mut rng, n, out), "peppi" => peppi_suite(&mut rng, n, out), _ => panic!("unknown suite {suite}") }
+/// Appendix C: every gate threshold, its predecessor, the 255 edge of its major, and a few beyond the maximum.
+pub fn version_classes() -> Vec<V> {
+    let th: [(u8, u8); 24] = [(0,2),(1,0),(1,2),(1,3),(1,4),(1,5),(2,0),(2,1),(2,2),(3,0),(3,2),(3,3),(3,5),(3,6),(3,7),(3,8),(3,9),(3,10),(3,11),(3,12),(3,13),(3,14),(3,15),(3,16)];
+    let mut out: Vec<V> = vec![(0,1,0)];
+    for (a, b) in th { out.push((a, b, 0)); let p = if b > 0 { (a, b - 1, 0) } else { (a - 1, 255, 0) }; if !out.contains(&p) { out.push(p); } }
+    for m in 0..3u8 { out.push((m, 255, 7)); }
+    out.push((3, 4, 7)); out.push((1, 1, 255)); out.push((3, 16, 0));
+    out
+}
+/// versions above the maximum supported one (readers accept them, writers must refuse them)
+pub const NEWER: [V; 6] = [(3,16,1),(3,17,0),(3,255,0),(4,0,0),(200,3,9),(255,255,255)];
+
+pub fn run(suite: &str, ctx: &mut Ctx) {
+    let mut rng = Rng(0x9E3779B97F4A7C15 ^ ctx.seed.wrapping_mul(0x2545F4914F6CDD1D) ^ (suite.bytes().fold(0u64, |a, b| a * 131 + b as u64)) << 20 | 1);
+    for _ in 0..4 { rng.next(); }
+    match suite {
+        "ver" => ver(&mut rng, ctx), "roll" => roll(&mut rng, ctx), "read" => read(&mut rng, ctx), "arrow" => arrow(&mut rng, ctx),
+        "start" => start(&mut rng, ctx), "ubj" => ubj(&mut rng, ctx), "peppi" => peppi_suite(&mut rng, ctx),
+        _ => crate::suites2::run(suite, &mut rng, ctx),
+    }
 }
 
-fn gen_replay(rng: &mut Rng, k: usize) -> (Replay, Vec<String>) {
-    let v = VERS[k % VERS.len()];
-    let mut pl = vec![]; for p in 0..4u8 { if rng.next() % 3 != 0 { let ty = (rng.next() % 3) as u8; let ch = if rng.next() % 3 == 0 { 14 } else { (rng.next() % 26) as u8 }; pl.push((p, ty, ch)); } }
+pub struct GenOpts { pub max_frames: usize, pub newer: bool }
+
+/// a well-formed history; `k` walks the version classes, port shapes and container shapes systematically
+pub fn gen_replay(rng: &mut Rng, k: usize, o: &GenOpts) -> (Replay, Vec<String>) {
+    let classes = version_classes();
+    let mut v = if k < 2 * classes.len() { classes[k % classes.len()] } else if rng.next() % 4 == 0 { classes[(rng.next() as usize) % classes.len()] } else { ((rng.next() % 4) as u8, (rng.next() % 20) as u8, (rng.next() >> 9) as u8) };
+    if v > MAXV && !o.newer { v = (3, 16, 0); }
+    if o.newer { v = NEWER[k % NEWER.len()]; }
+    if v == (0, 0, v.2) { v = (0, 1, v.2); }
+    let mut pl = vec![];
+    // port subsets: walk all 16 subsets, ICs flags at random
+    let mask = if k % 3 == 0 { (k / 3) % 16 } else { (rng.next() % 16) as usize };
+    for p in 0..4u8 { if mask >> p & 1 == 1 { let ty = (rng.next() % 3) as u8; let ch = if rng.next() % 3 == 0 { 14 } else { (rng.next() % 26) as u8 }; pl.push((p, ty, ch)); } }
     let nslots: usize = pl.iter().map(|p| if p.2 == 14 { 2 } else { 1 }).sum();
-    let nf = (rng.next() % 9) as usize;
-    let mut absent = vec![]; for i in 0..nf { for c in 0..nslots { if rng.next() % 4 == 0 { absent.push((i, c)); } } }
+    let nf = (rng.next() as usize) % (o.max_frames + 1);
+    let dens = 2 + rng.next() % 5;
+    let mut absent = vec![]; for i in 0..nf { for c in 0..nslots { if rng.next() % dens == 0 { absent.push((i, c)); } } }
     let mut r = simple(v, &pl, nf, &absent, rng);
     if !gte(v,2,2) { r.frames.retain(|f| f.chars.iter().any(|c| c.2.is_some())); for (i, f) in r.frames.iter_mut().enumerate() { f.id = -123 + i as i32; } }
-    else { for i in 1..r.frames.len() { r.frames[i].id = if rng.next() % 4 == 0 { r.frames[i-1].id - (rng.next() % 3) as i32 } else { r.frames[i-1].id + 1 }; } }
-    let shape = rng.next() % 6;
+    else { let mode = rng.next() % 4; for i in 1..r.frames.len() { let prev = r.frames[i-1].id; r.frames[i].id = match mode {
+        0 => prev + 1, 1 => if rng.next() % 3 == 0 { prev } else { prev + 1 }, 2 => if rng.next() % 4 == 0 { (prev - (rng.next() % 4) as i32).max(-123) } else { prev + 1 },
+        _ => if rng.next() % 5 == 0 { -123 + (rng.next() % (i as u64 + 1)) as i32 } else { prev + 1 } }; } }
+    let shape = if k % 2 == 0 { (k / 2) % 6 } else { (rng.next() % 6) as usize };
     match shape { 0 => r.end = None, 1 => r.metadata = None, 2 => r.double_end = true, 3 => { r.end = None; r.metadata = None; } _ => {} }
+    if let Some(e) = r.end.as_mut() { e[0] = [0u8, 1, 2, 3, 7][(rng.next() % 5) as usize]; if e.len() >= 2 { e[1] = [255u8, 0, 1, 2, 3][(rng.next() % 5) as usize]; } if e.len() >= 6 { for j in 2..6 { e[j] = [255u8, 0, 1, 2, 3][(rng.next() % 5) as usize]; } } }
     if gte(v,3,3) && rng.next() % 2 == 0 { let nb = 1 + (rng.next() % 3) as usize; let actual = (nb as u32 - 1) * 512 + 1 + (rng.next() % 512) as u32; r.gecko = Some((rng.bytes(512 * nb), actual)); }
-    let tags = vec![format!("v{}.{}", v.0, v.1), format!("ports{}", pl.len()), format!("frames{}", r.frames.len().min(9)), format!("absent{}", absent.len().min(5)), format!("shape{}", shape), format!("gecko{}", r.gecko.is_some() as u8)];
+    if rng.next() % 3 == 0 { let mut m = vec![]; gen_tree(rng, 1, &mut m); r.metadata = r.metadata.map(|_| m); }
+    let tags = vec![format!("v{}.{}", v.0, v.1), format!("ports{}", pl.len()), format!("slots{}", nslots), format!("frames{}", r.frames.len().min(9)), format!("absent{}", absent.len().min(5)),
+        format!("shape{}", shape), format!("gecko{}", r.gecko.is_some() as u8), format!("regime{}", if gte(v,3,0) { "A" } else if gte(v,2,2) { "B" } else { "C" })];
     (r, tags)
 }
 
-fn read(rng: &mut Rng, n: usize, out: &mut Vec<Case>) {
-    for k in 0..n {
-        let (r, mut tags) = gen_replay(rng, k);
+pub fn start_json(s: &peppi::game::Start) -> String { serde_json::to_string(s).unwrap_or_else(|_| "?".into()) }
+pub fn end_json(e: &Option<peppi::game::End>) -> String { serde_json::to_string(e).unwrap_or_else(|_| "?".into()) }
+
+/// C04 / C03 / C13 stated on the real game against the generated history (independent spec tables)
+pub fn check_frames(r: &Replay, g: &Game, c: &mut Case) {
+    let v = r.v; let fr = &g.frames; let n = r.frames.len();
+    let ids: Vec<i32> = fr.id.values().iter().cloned().collect(); let exp: Vec<i32> = r.frames.iter().map(|f| f.id).collect();
+    if ids != exp { c.fail("C04", format!("frame ids {:?} != history {:?}", ids, exp)); return; }
+    let tpl = slots_of(&r.start_block);
+    let mut slots: Vec<(&im::Data, u8, bool)> = vec![];
+    for p in &fr.ports { slots.push((&p.leader, p.port as u8, false)); if let Some(f) = &p.follower { slots.push((f, p.port as u8, true)); } }
+    let shape: Vec<(u8, bool)> = slots.iter().map(|s| (s.1, s.2)).collect();
+    if shape != tpl { c.fail("C04", format!("character slots {:?} != occupied ports {:?}", shape, tpl)); return; }
+    for (ci, (d, port, fol)) in slots.iter().enumerate() {
+        let (np, nq) = (d.pre.random_seed.len(), d.post.character.len());
+        if np != n || nq != n { c.fail("C04", format!("port {} follower {}: {} pre / {} post rows for {} frames", port, fol, np, nq, n)); continue; }
+        if let Some(b) = &d.validity { if b.len() != n { c.fail("C04", format!("port {} validity length {} != {}", port, b.len(), n)); continue; } }
+        for i in 0..n {
+            let occ = &r.frames[i].chars[ci].2;
+            let valid = d.validity.as_ref().map_or(true, |b| b.get_bit(i));
+            if valid != occ.is_some() { c.fail("C04", format!("frame row {} port {} follower {}: present={} but history says {}", i, port, fol, valid, occ.is_some())); continue; }
+            if let Some(ev) = occ {
+                let mut pay = r.frames[i].id.to_be_bytes().to_vec(); pay.push(*port); pay.push(*fol as u8);
+                let mut p1 = pay.clone(); p1.extend(&ev.pre); let mut p2 = pay.clone(); p2.extend(&ev.post);
+                let (e1, e2) = (spec::decode(spec::PRE, v, &p1), spec::decode(spec::POST, v, &p2));
+                let (a1, a2) = (dump::pre_row(&d.pre, i), dump::post_row(&d.post, i));
+                if a1 != e1 { c.fail("C03", format!("pre row {} port {}: {:?} != spec-offset values {:?}", i, port, a1, e1)); c.fail("C04", format!("pre row {} port {} does not hold that occurrence's values", i, port)); }
+                if a2 != e2 { c.fail("C03", format!("post row {} port {}: {:?} != spec-offset values {:?}", i, port, a2, e2)); c.fail("C04", format!("post row {} port {} does not hold that occurrence's values", i, port)); }
+            }
+        }
+    }
+    // start / end / items
+    match (&fr.start, gte(v,2,2)) { (Some(s), true) => {
+        if s.random_seed.len() != n { c.fail("C04", format!("start column has {} rows for {} frames", s.random_seed.len(), n)); }
+        else { for i in 0..n { let mut p = r.frames[i].id.to_be_bytes().to_vec(); p.extend(&r.frames[i].start); let e = spec::decode(spec::START, v, &p); let a = dump::start_row(s, i); if a != e { c.fail("C03", format!("frame start row {}: {:?} != {:?}", i, a, e)); } } } }
+        (None, false) => {} (a, b) => c.fail("C03", format!("start columns present={} but version {:?} has frame start={}", a.is_some(), v, b)) }
+    match (&fr.end, gte(v,3,0)) { (Some(s), true) => {
+        if let Some(col) = &s.latest_finalized_frame { if col.len() != n { c.fail("C04", format!("end column has {} rows for {} frames", col.len(), n)); } }
+        if s.latest_finalized_frame.is_some() != gte(v,3,7) { c.fail("C03", "latest_finalized_frame presence does not match version".to_string()); }
+        else if s.latest_finalized_frame.as_ref().map_or(true, |c| c.len() == n) { for i in 0..n { let mut p = r.frames[i].id.to_be_bytes().to_vec(); p.extend(&r.frames[i].end); let e = spec::decode(spec::END, v, &p); let a = dump::end_row(s, i); if a != e { c.fail("C03", format!("frame end row {}: {:?} != {:?}", i, a, e)); } } } }
+        (None, false) => {} (a, b) => c.fail("C03", format!("end columns present={} but version {:?} has frame end={}", a.is_some(), v, b)) }
+    match (&fr.item, &fr.item_offset, gte(v,3,0)) { (Some(it), Some(off), true) => {
+        let exp_off: Vec<i32> = std::iter::once(0).chain(r.frames.iter().scan(0i32, |a, f| { *a += f.items.len() as i32; Some(*a) })).collect();
+        let got: Vec<i32> = off.iter().cloned().collect();
+        if got != exp_off { c.fail("C04", format!("item offsets {:?} != {:?}", got, exp_off)); }
+        else { let mut j = 0; for f in &r.frames { for bytes in &f.items { let mut p = f.id.to_be_bytes().to_vec(); p.extend(bytes); let e = spec::decode(spec::ITEM, v, &p);
+            if j >= it.r#type.len() { c.fail("C04", "item column shorter than offsets".to_string()); break; }
+            let a = dump::item_row(it, j); if a != e { c.fail("C03", format!("item row {}: {:?} != {:?}", j, a, e)); c.fail("C04", format!("item {} is not that occurrence's item", j)); } j += 1; } } } }
+        (None, None, false) => {} _ => c.fail("C04", format!("item columns do not match version {:?}", v)) }
+    // C13: the row view against the columns (both read from public fields by hand)
+    if c.oracle.is_empty() { check_row_view(g, c); }
+}
+
+pub fn check_row_view(g: &Game, c: &mut Case) {
+    use peppi::game::Game as _;
+    let fr = &g.frames; let n = fr.id.len();
+    for i in 0..n {
+        let t = match std::panic::catch_unwind(std::panic::AssertUnwindSafe(|| g.frame(i))) { Ok(t) => t, Err(_) => { c.fail("C13", format!("frame({}) panicked", i)); return; } };
+        if t.id != fr.id.values()[i] { c.fail("C13", format!("frame({}).id {} != column {}", i, t.id, fr.id.values()[i])); }
+        if t.ports.len() != fr.ports.len() { c.fail("C13", format!("frame({}) has {} ports, columns {}", i, t.ports.len(), fr.ports.len())); return; }
+        for (tp, cp) in t.ports.iter().zip(&fr.ports) {
+            if tp.port != cp.port { c.fail("C13", format!("frame({}) port {:?} != {:?}", i, tp.port, cp.port)); }
+            let mut pairs = vec![(&tp.leader, &cp.leader)];
+            match (&tp.follower, &cp.follower) { (Some(a), Some(b)) => pairs.push((a, b)), (None, None) => {} _ => c.fail("C13", format!("frame({}) follower presence differs from columns", i)) }
+            for (a, b) in pairs {
+                if dump::tr_pre_row(&a.pre) != dump::pre_row(&b.pre, i) { c.fail("C13", format!("frame({}) port {:?} pre {:?} != columns {:?}", i, tp.port, dump::tr_pre_row(&a.pre), dump::pre_row(&b.pre, i))); }
+                if dump::tr_post_row(&a.post) != dump::post_row(&b.post, i) { c.fail("C13", format!("frame({}) port {:?} post {:?} != columns {:?}", i, tp.port, dump::tr_post_row(&a.post), dump::post_row(&b.post, i))); }
+            }
+        }
+        match (&t.start, &fr.start) { (Some(a), Some(b)) => if dump::tr_start_row(a) != dump::start_row(b, i) { c.fail("C13", format!("frame({}) start differs", i)); }, (None, None) => {} _ => c.fail("C13", format!("frame({}) start presence differs", i)) }
+        match (&t.end, &fr.end) { (Some(a), Some(b)) => if dump::tr_end_row(a) != dump::end_row(b, i) { c.fail("C13", format!("frame({}) end differs", i)); }, (None, None) => {} _ => c.fail("C13", format!("frame({}) end presence differs", i)) }
+        match (&t.items, &fr.item, &fr.item_offset) { (Some(items), Some(col), Some(off)) => {
+            let (s, e) = (off.as_slice()[i] as usize, off.as_slice()[i + 1] as usize);
+            if items.len() != e - s { c.fail("C13", format!("frame({}) has {} items, offsets delimit {}", i, items.len(), e - s)); }
+            else { for (k, it) in items.iter().enumerate() { if dump::tr_item_row(it) != dump::item_row(col, s + k) { c.fail("C13", format!("frame({}) item {} differs from column row {}", i, k, s + k)); } } } }
+            (None, None, None) => {} _ => c.fail("C13", format!("frame({}) items presence differs", i)) }
+        if !c.oracle.is_empty() { return; }
+    }
+}
+
+pub fn read_opts(skip: bool, hash: bool) -> slippi::de::Opts { slippi::de::Opts { skip_frames: skip, compute_hash: hash, ..Default::default() } }
+
+/// the canonical `read` result line; the summary is computed inside the catch
+pub fn read_line(b: &[u8], skip: bool, hash: bool) -> (String, Option<Game>) {
+    let o = read_opts(skip, hash);
+    let res = std::panic::catch_unwind(|| slippi::read(Cursor::new(b), Some(&o)));
+    match res { Err(_) => ("panic".to_string(), None), Ok(Err(e)) => (format!("err {}", e), None), Ok(Ok(g)) => {
+        match std::panic::catch_unwind(std::panic::AssertUnwindSafe(|| dump::summary(&g))) {
+            Ok(mut s) => { if hash { s = s.replace("hashed=none", &format!("hashed=(some {})", b.len())); } (s, Some(g)) }
+            Err(_) => ("panic-in-dump".to_string(), Some(g)) } } }
+}
+
+pub fn write_slp(g: &Game) -> Result<Vec<u8>, String> {
+    match std::panic::catch_unwind(std::panic::AssertUnwindSafe(|| { let mut o = vec![]; slippi::write(&mut o, g).map(|_| o).map_err(|e| format!("err {}", e)) })) { Ok(r) => r, Err(_) => Err("panic".into()) }
+}
+
+fn read(rng: &mut Rng, ctx: &mut Ctx) {
+    let go = GenOpts { max_frames: if ctx.thorough { 40 } else { 9 }, newer: false };
+    for k in 0..ctx.n {
+        let (r, tags) = gen_replay(rng, k, &go);
         let b = encode(&r);
-        let skip = k % 5 == 4 && r.end.is_some(); let hash = k % 3 == 0;
-        let o = slippi::de::Opts { skip_frames: skip, compute_hash: hash, ..Default::default() };
-        let res = std::panic::catch_unwind(|| slippi::read(Cursor::new(&b), Some(&o)));
-        let mut oracle = None;
-        let line = match res { Err(_) => "panic".to_string(), Ok(Err(e)) => format!("err {}", e), Ok(Ok(g)) => {
-            // the dump itself indexes the columns: keep a panic there inside the case
-            let mut s = match std::panic::catch_unwind(std::panic::AssertUnwindSafe(|| dump::summary(&g))) { Ok(s) => s, Err(_) => { oracle = Some("C04 columns inconsistent: dump panicked".into()); "panic-in-dump".to_string() } };
-            if hash { let exp = format!("xxh3:{:016x}", xxhash_rust::xxh3::xxh3_64(&b)); if g.hash.as_deref() != Some(exp.as_str()) { oracle = Some(format!("C11 hash {:?} != {}", g.hash, exp)); } s = s.replace("hashed=none", &format!("hashed=(some {})", b.len())); }
-            else if g.hash.is_some() { oracle = Some("C11 hash reported though not requested".into()); }
-            // C04 oracle: ids and presence mirror the generated history
-            if !skip { let ids: Vec<i32> = g.frames.id.values().iter().cloned().collect(); let exp: Vec<i32> = r.frames.iter().map(|f| f.id).collect(); if ids != exp { oracle = Some(format!("C04 ids {:?} != {:?}", ids, exp)); } }
-            s } };
-        tags.push(format!("skip{}", skip as u8));
-        out.push(Case { line: format!("read {} {} {}", skip as u8, hash as u8, hex(&b)), impl_out: line, oracle_fail: oracle, tags: tags.clone() });
-        // C01 oracle + model comparison of the writer
-        let rt = std::panic::catch_unwind(|| slippi::read(Cursor::new(&b), None).map_err(|e| format!("err {}", e)).and_then(|g| { let mut o = vec![]; slippi::write(&mut o, &g).map_err(|e| format!("err {}", e)).map(|_| o) }));
-        let (line, oracle) = match rt { Err(_) => ("panic".to_string(), Some("C01 panic".to_string())), Ok(Err(e)) => { let bad = r.v <= (3,16,0); (e, bad.then(|| "C01 write(read(x)) failed".to_string())) }, Ok(Ok(o)) => { let same = o == b; (format!("ok {}", hex(&o)), (!same).then(|| "C01 write(read(x)) != x".to_string())) } };
-        out.push(Case { line: format!("rt {}", hex(&b)), impl_out: line, oracle_fail: oracle, tags: vec!["rt".into()] });
-    }
-}
-
-fn ver(rng: &mut Rng, n: usize, out: &mut Vec<Case>) {
-    let thresholds = [(0,2),(1,0),(1,2),(1,3),(1,4),(1,5),(2,0),(2,1),(2,2),(3,0),(3,2),(3,3),(3,5),(3,6),(3,7),(3,8),(3,9),(3,10),(3,11),(3,12),(3,13),(3,14),(3,15),(3,16)];
-    for k in 0..n {
-        let (a, b) = if k < 4096 { ((k / 64) as u8 % 8, (k % 64) as u8) } else { ((rng.next() >> 8) as u8, (rng.next() >> 8) as u8) };
-        let (m, mi) = if k % 2 == 0 { thresholds[k % thresholds.len()] } else { ((rng.next() >> 8) as u8 % 5, (rng.next() >> 8) as u8 % 20) };
-        let v = slippi::Version(a, b, (rng.next() >> 8) as u8);
-        let exp = (a, b) >= (m, mi);
-        let got = v.gte(m, mi); let lt = v.lt(m, mi);
-        out.push(Case { line: format!("gte {} {} {} {}", a, b, m, mi), impl_out: format!("{} {}", got, lt), oracle_fail: (got != exp || lt == got).then(|| format!("C20 gte({},{}) on {}.{}", m, mi, a, b)), tags: vec!["gte".into()] });
-        let s = v.to_string(); let back = slippi::Version::from_str(&s);
-        out.push(Case { line: format!("vdisplay {} {} {}", v.0, v.1, v.2), impl_out: s.clone(), oracle_fail: (back.as_ref().ok() != Some(&v)).then(|| format!("C20 parse(display) {}", s)), tags: vec!["display".into()] });
-    }
-    let pool = ["3.16.0", "+3.016.0", "3.16", "3.16.256", "3.-1.2", "", "..", "1..2", "1.2.3.", ".1.2.3", "+.1.2", "1.+.2", "-0.1.2", " 1.2.3", "1.2.3 ", "0256.1.1", "0000000255.+0.00", "1.2.3.4", "255.255.255", "+1.+2.+3", "++1.2.3", "1e1.2.3", "0x1.2.3", "1,2,3", "1.2.3\n"];
-    for s in pool.iter() {
-        let r = slippi::Version::from_str(s); let p = peppi::io::peppi::Version::from_str(s);
-        let show = |r: Result<(u8,u8,u8), ()>| match r { Ok(v) => format!("ok {} {} {}", v.0, v.1, v.2), Err(_) => "err".to_string() };
-        let a = show(r.map(|v| (v.0, v.1, v.2)).map_err(|_| ())); let b = show(p.map(|v| (v.0, v.1, v.2)).map_err(|_| ()));
-        out.push(Case { line: format!("vparse {}", hex(s.as_bytes())), impl_out: a.clone(), oracle_fail: (a != b).then(|| "C20 peppi version parser differs".to_string()), tags: vec!["parse".into()] });
-    }
-}
-
-fn roll(rng: &mut Rng, n: usize, out: &mut Vec<Case>) {
-    use arrow2::array::PrimitiveArray;
-    for k in 0..n {
-        let len = (rng.next() % 12) as usize;
-        let mut ids: Vec<i32> = vec![]; let mut cur = -123i32;
-        for _ in 0..len { match rng.next() % 5 { 0 => {} 1 => cur -= (rng.next() % 3) as i32, _ => cur += 1 } if cur < -123 { cur = -123; } ids.push(cur); }
-        if k % 50 == 49 && !ids.is_empty() { let i = (rng.next() as usize) % ids.len(); ids[i] = 2000; }
-        let frame = peppi::frame::immutable::Frame { id: PrimitiveArray::from_vec(ids.clone()), ports: vec![], start: None, end: None, item_offset: None, item: None };
-        for (mode, name) in [(Rollbacks::ExceptFirst, "first"), (Rollbacks::ExceptLast, "last")] {
-            let got = std::panic::catch_unwind(|| frame.rollbacks(mode));
-            let exp: Vec<bool> = (0..ids.len()).map(|i| if name == "first" { (0..i).any(|j| ids[j] == ids[i]) } else { (i+1..ids.len()).any(|j| ids[j] == ids[i]) }).collect();
-            let (line, oracle) = match got { Err(_) => ("panic".to_string(), Some("C15 panic".to_string())), Ok(m) => (format!("ok {}", m.iter().map(|b| if *b { '1' } else { '0' }).collect::<String>()), (m != exp).then(|| format!("C15 mask {:?} != {:?}", m, exp))) };
-            out.push(Case { line: format!("roll {} {}", name, ids.iter().map(|x| x.to_string()).collect::<Vec<_>>().join(",")), impl_out: line, oracle_fail: oracle, tags: vec![format!("len{}", len.min(6))] });
+        let hash = k % 3 == 0;
+        // full read
+        let (line, g) = read_line(&b, false, hash);
+        let mut c = Case::new(format!("read 0 {} {}", hash as u8, hex(&b)), line.clone()); c.tags = tags.clone(); c.tags.push(format!("hash{}", hash as u8));
+        let xx = format!("xxh3:{:016x}", xxhash_rust::xxh3::xxh3_64(&b));
+        match &g { None => { for p in ["C01", "C04"] { c.fail(p, format!("well-formed replay rejected: {}", line)); } }
+            Some(g) => {
+                if line == "panic-in-dump" { c.fail("C04", "columns inconsistent: dump panicked"); } else { check_frames(&r, g, &mut c); }
+                if hash { if g.hash.as_deref() != Some(xx.as_str()) { c.fail("C11", format!("hash {:?} != {}", g.hash, xx)); } } else if g.hash.is_some() { c.fail("C11", "hash reported though not requested"); }
+            } }
+        ctx.push(c);
+        // write back
+        let (line2, or) = match &g { None => (line.clone(), None), Some(g) => match write_slp(g) { Ok(o) => (format!("ok {}", hex(&o)), (o != b).then(|| format!("write(read(x)) differs from x at byte {}", o.iter().zip(&b).position(|(a, b)| a != b).unwrap_or(o.len().min(b.len()))))), Err(e) => (e.clone(), Some(format!("write(read(x)) failed: {}", e))) } };
+        let mut c = Case::new(format!("rt {}", hex(&b)), line2); c.tags = vec!["rt".into()];
+        if let Some(m) = or { c.fail("C01", m.clone()); c.fail("C17", m); }
+        ctx.push(c);
+        // skip-frames read of finished replays
+        if r.end.is_some() && k % 2 == 0 {
+            let (sl, gs) = read_line(&b, true, hash);
+            let mut c = Case::new(format!("read 1 {} {}", hash as u8, hex(&b)), sl.clone()); c.tags = tags.clone(); c.tags.push("skip1".into());
+            match (&gs, &g) { (Some(gs), Some(g)) => {
+                if start_json(&gs.start) != start_json(&g.start) || gs.start.bytes != g.start.bytes { c.fail("C10", "skip-frames: Game Start differs from full parse"); }
+                if end_json(&gs.end) != end_json(&g.end) || gs.end.as_ref().map(|e| &e.bytes) != g.end.as_ref().map(|e| &e.bytes) { c.fail("C10", "skip-frames: Game End differs from full parse"); }
+                if gs.metadata != g.metadata { c.fail("C10", "skip-frames: metadata differs from full parse"); }
+                if gs.frames.id.len() != 0 { c.fail("C10", format!("skip-frames: {} frames", gs.frames.id.len())); }
+                if hash { if gs.hash.as_deref() != Some(xx.as_str()) { c.fail("C11", format!("skip-frames hash {:?} != {}", gs.hash, xx)); } } else if gs.hash.is_some() { c.fail("C11", "hash reported though not requested"); }
+                match write_slp(gs) { Err(e) => c.fail("C10", format!("skip-frames result cannot be written: {}", e)), Ok(y) => { let (l, g2) = read_line(&y, false, false); match g2 { None => c.fail("C10", format!("skip-frames result cannot be re-read: {}", l)),
+                    Some(g2) => if start_json(&g2.start) != start_json(&g.start) || end_json(&g2.end) != end_json(&g.end) || g2.metadata != g.metadata { c.fail("C10", "re-read of the written skip-frames game differs in start/end/metadata") } } } }
+              }
+              (None, Some(_)) => c.fail("C10", format!("skip-frames read of a finished replay failed: {}", sl)), _ => {} }
+            ctx.push(c);
         }
     }
 }
 
-fn arrow(rng: &mut Rng, n: usize, out: &mut Vec<Case>) {
+fn ver(rng: &mut Rng, ctx: &mut Ctx) {
+    let thresholds = [(0,2),(1,0),(1,2),(1,3),(1,4),(1,5),(2,0),(2,1),(2,2),(3,0),(3,2),(3,3),(3,5),(3,6),(3,7),(3,8),(3,9),(3,10),(3,11),(3,12),(3,13),(3,14),(3,15),(3,16)];
+    let one = |a: u8, b: u8, m: u8, mi: u8, ctx: &mut Ctx| {
+        let v = slippi::Version(a, b, 0); let exp = (a, b) >= (m, mi); let got = v.gte(m, mi); let lt = v.lt(m, mi);
+        let mut c = Case::new(format!("gte {} {} {} {}", a, b, m, mi), format!("{} {}", got, lt)); c.tags = vec!["gte".into()];
+        if got != exp || lt == got { c.fail("C20", format!("gte({},{}) on {}.{} = {}, lt = {}", m, mi, a, b, got, lt)); }
+        ctx.push(c);
+    };
+    if ctx.thorough { for a in 0..=255u8 { for b in 0..=255u8 { for (m, mi) in thresholds { if (a as i32 - m as i32).abs() <= 1 || b == mi || a == 255 || (a as usize * 256 + b as usize) % 97 == 0 { one(a, b, m, mi, ctx); } } } } }
+    else { for (m, mi) in thresholds { for (a, b) in [(m, mi), (m, mi.wrapping_sub(1)), (m, mi.saturating_add(1)), (m.wrapping_sub(1), 255), (m.saturating_add(1), 0), (m, 0), (m, 255), (0, 0), (255, 255), (m.saturating_add(1), mi.wrapping_sub(1)), (m.wrapping_sub(1), mi.saturating_add(1))] { one(a, b, m, mi, ctx); } } }
+    for k in 0..ctx.n {
+        let (a, b) = ((rng.next() >> 8) as u8, (rng.next() >> 8) as u8);
+        let (m, mi) = if k % 2 == 0 { thresholds[k % thresholds.len()] } else { ((rng.next() >> 8) as u8, (rng.next() >> 8) as u8) };
+        one(if k % 3 == 0 { m } else { a }, b, m, mi, ctx);
+        let v = slippi::Version(a, b, (rng.next() >> 8) as u8);
+        let s = v.to_string(); let back = slippi::Version::from_str(&s);
+        let mut c = Case::new(format!("vdisplay {} {} {}", v.0, v.1, v.2), s.clone()); c.tags = vec!["display".into()];
+        if back.as_ref().ok() != Some(&v) { c.fail("C20", format!("parse(display({:?})) = {:?}", v, back.ok())); }
+        if s != format!("{}.{}.{}", v.0, v.1, v.2) { c.fail("C20", format!("display({:?}) = {}", v, s)); }
+        let pv = peppi::io::peppi::Version(v.0, v.1, v.2); let ps = pv.to_string();
+        if peppi::io::peppi::Version::from_str(&ps).ok() != Some(pv) || ps != s { c.fail("C20", format!("peppi format version display/parse {:?} -> {}", pv, ps)); }
+        ctx.push(c);
+    }
+    let pool = ["3.16.0", "+3.016.0", "3.16", "3.16.256", "3.-1.2", "", "..", "1..2", "1.2.3.", ".1.2.3", "+.1.2", "1.+.2", "-0.1.2", " 1.2.3", "1.2.3 ", "0256.1.1", "0000000255.+0.00", "1.2.3.4", "255.255.255", "+1.+2.+3", "++1.2.3", "1e1.2.3", "0x1.2.3", "1,2,3", "1.2.3\n", "256.0.0", "0.256.0", "1.2.-3", "٣.1.2", "1.2.3", "1 .2.3", "1.2", "1", "a.b.c", "1.2.c", "1.2.", "999.1.1", "0.0.0", "00.00.00", "1.2.3.4.5", "1..3", "-1.2.3", "1.2.+", "+", "1.２.3"];
+    let mut strs: Vec<String> = pool.iter().map(|s| s.to_string()).collect();
+    for _ in 0..(ctx.n / 4).max(40) { // random mutations of valid strings
+        let mut s: Vec<char> = format!("{}.{}.{}", rng.next() % 300, rng.next() % 300, rng.next() % 300).chars().collect();
+        for _ in 0..(rng.next() % 3) { let i = (rng.next() as usize) % (s.len() + 1); match rng.next() % 4 { 0 => { if i < s.len() { s.remove(i); } } 1 => s.insert(i, ['.', '+', '-', ' ', '0', '9', 'x'][(rng.next() % 7) as usize]), 2 => { if i < s.len() { s[i] = ['.', '5', '+'][(rng.next() % 3) as usize]; } } _ => {} } }
+        strs.push(s.into_iter().collect());
+    }
+    for s in strs.iter() {
+        let r = slippi::Version::from_str(s); let p = peppi::io::peppi::Version::from_str(s);
+        let show = |r: Result<(u8,u8,u8), ()>| match r { Ok(v) => format!("ok {} {} {}", v.0, v.1, v.2), Err(_) => "err".to_string() };
+        let a = show(r.map(|v| (v.0, v.1, v.2)).map_err(|_| ())); let b = show(p.map(|v| (v.0, v.1, v.2)).map_err(|_| ()));
+        let mut c = Case::new(format!("vparse {}", hex(s.as_bytes())), a.clone()); c.tags = vec!["parse".into()];
+        if a != b { c.fail("C20", format!("peppi format version parser differs on {:?}: {} vs {}", s, b, a)); }
+        // independent reading of "three dot-separated integers in 0..255" (optional '+', ASCII digits)
+        let parts: Vec<&str> = s.split('.').collect();
+        let lit = |t: &str| -> Option<u8> { let t = t.strip_prefix('+').unwrap_or(t); if t.is_empty() || !t.bytes().all(|c| c.is_ascii_digit()) { return None; } let t = t.trim_start_matches('0'); if t.len() > 3 { return None; } let x: u32 = if t.is_empty() { 0 } else { t.parse().ok()? }; (x <= 255).then(|| x as u8) };
+        let exp = if parts.len() == 3 { match (lit(parts[0]), lit(parts[1]), lit(parts[2])) { (Some(x), Some(y), Some(z)) => format!("ok {} {} {}", x, y, z), _ => "err".into() } } else { "err".into() };
+        if a != exp { c.fail("C20", format!("parse({:?}) = {}, expected {}", s, a, exp)); }
+        ctx.push(c);
+    }
+}
+
+fn roll(rng: &mut Rng, ctx: &mut Ctx) {
+    use arrow2::array::PrimitiveArray;
+    for k in 0..ctx.n {
+        let len = if ctx.thorough && k % 10 == 0 { (rng.next() % 300) as usize } else { (rng.next() % 14) as usize };
+        let mut ids: Vec<i32> = vec![]; let mut cur = -123i32;
+        for _ in 0..len { match rng.next() % 6 { 0 => {} 1 => cur -= (rng.next() % 4) as i32, 2 => cur += (rng.next() % 5) as i32, _ => cur += 1 } if cur < -123 { cur = -123; } ids.push(cur); }
+        if k % 25 == 24 && !ids.is_empty() { let i = (rng.next() as usize) % ids.len(); ids[i] = [2000, 100000, 30000][(rng.next() % 3) as usize]; }
+        if k % 40 == 39 { ids.reverse(); }
+        // the extreme id needs a 2 GiB table: only in the thorough tier
+        if ctx.thorough && k == 7 { ids = vec![i32::MAX, -123, i32::MAX]; }
+        let frame = im::Frame { id: PrimitiveArray::from_vec(ids.clone()), ports: vec![], start: None, end: None, item_offset: None, item: None };
+        for (mode, name) in [(Rollbacks::ExceptFirst, "first"), (Rollbacks::ExceptLast, "last")] {
+            let got = std::panic::catch_unwind(|| frame.rollbacks(mode));
+            let exp: Vec<bool> = (0..ids.len()).map(|i| if name == "first" { (0..i).any(|j| ids[j] == ids[i]) } else { (i+1..ids.len()).any(|j| ids[j] == ids[i]) }).collect();
+            let extreme = ids.iter().any(|x| *x > 1_000_000);
+            let mut c = Case::new(format!("{} {} {}", if extreme { "rollx" } else { "roll" }, name, if ids.is_empty() { String::new() } else { ids.iter().map(|x| x.to_string()).collect::<Vec<_>>().join(",") }), String::new());
+            c.tags = vec![format!("len{}", len.min(6)), format!("repeats{}", exp.iter().filter(|b| **b).count().min(4))];
+            match got { Err(_) => { c.impl_out = "panic".into(); c.fail("C15", "rollbacks() panicked on ids >= -123"); }
+                Ok(m) => { c.impl_out = format!("ok {}", m.iter().map(|b| if *b { '1' } else { '0' }).collect::<String>()); if m != exp { c.fail("C15", format!("mask {:?} != reference {:?} for ids {:?}", m, exp, ids)); } } }
+            ctx.push(c);
+        }
+    }
+}
+
+fn arrow(rng: &mut Rng, ctx: &mut Ctx) {
     use peppi::game::port_occupancy;
-    for k in 0..n {
-        let (r, tags) = gen_replay(rng, k);
+    let go = GenOpts { max_frames: if ctx.thorough { 30 } else { 8 }, newer: false };
+    for k in 0..ctx.n {
+        let (r, mut tags) = gen_replay(rng, k, &go);
         if r.frames.is_empty() { continue; }
         let b = encode(&r);
+        let zero_ports = slots_of(&r.start_block).is_empty();
         let res = std::panic::catch_unwind(|| {
             let g = slippi::read(Cursor::new(&b), None).map_err(|e| format!("err {}", e))?;
             let ports = port_occupancy(&g.start); let ver = g.start.slippi.version;
             let start = g.start.clone(); let (end, md, gc, q) = (g.end, g.metadata, g.gecko_codes, g.quirks);
+            let n = g.frames.id.len();
             let sa = g.frames.into_struct_array(ver, &ports);
+            let rows = arrow2::array::Array::len(&sa);
             let d = crate::arrowdump::dump(&sa);
-            let f2 = peppi::frame::immutable::Frame::from_struct_array(sa, ver);
-            let g2 = peppi::game::immutable::Game { start, end, frames: f2, metadata: md, gecko_codes: gc, hash: None, quirks: q };
+            let f2 = im::Frame::from_struct_array(sa, ver);
+            let g2 = Game { start, end, frames: f2, metadata: md, gecko_codes: gc, hash: None, quirks: q };
             let mut o = vec![]; let w = slippi::write(&mut o, &g2);
-            Ok::<_, String>((d, w.is_ok() && o == b || ver > slippi::MAX_SUPPORTED_VERSION))
+            Ok::<_, String>((d, w.is_ok() && o == b, rows == n))
         });
-        let (line, oracle) = match res { Err(_) => ("panic".to_string(), Some("C14 panic in into/from_struct_array".to_string())), Ok(Err(e)) => (e, None), Ok(Ok((d, same))) => (format!("ok {}", d), (!same).then(|| "C14 from(into(frames)) does not re-serialise identically".to_string())) };
-        out.push(Case { line: format!("into {}", hex(&b)), impl_out: line, oracle_fail: oracle, tags });
+        let mut c = Case::new(format!("into {}", hex(&b)), String::new());
+        match res { Err(_) => { c.impl_out = "panic".into(); if zero_ports { tags.push("zero-ports".into()); c.fail("C14", "KNOWN:zero-ports panic in into_struct_array (no occupied port)"); } else { c.fail("C14", "panic in into/from_struct_array"); } }
+            Ok(Err(e)) => { c.impl_out = e; c.fail("C14", "well-formed replay rejected"); }
+            Ok(Ok((d, same, rows))) => { c.impl_out = format!("ok {}", d); if !same { c.fail("C14", "from_struct_array(into_struct_array(frames)) does not serialise to the identical .slp"); } if !rows { c.fail("C14", "struct array length != number of frame rows"); } } }
+        c.tags = tags; ctx.push(c);
     }
 }
 
-fn until_nul(b: &[u8]) -> &[u8] { &b[..b.iter().position(|&x| x == 0).unwrap_or(b.len())] }
-fn sjis(b: &[u8]) -> Option<String> { encoding_rs::SHIFT_JIS.decode_without_bom_handling_and_without_replacement(b).map(|c| c.to_string()) }
+pub fn until_nul(b: &[u8]) -> &[u8] { &b[..b.iter().position(|&x| x == 0).unwrap_or(b.len())] }
+pub fn sjis(b: &[u8]) -> Option<String> { encoding_rs::SHIFT_JIS.decode_without_bom_handling_and_without_replacement(b).map(|c| c.to_string()) }
 
 /// canonical JSON of serde_json::Value with f32 / string fields replaced using the struct and the raw block (spec offsets)
-fn canon_start(g: &peppi::game::Start, block: &[u8], oracle: &mut Option<String>) -> String {
+pub fn canon_start(g: &peppi::game::Start, block: &[u8], c: &mut Vec<(String, String)>) -> String {
     use serde_json::Value;
     let mut v = serde_json::to_value(g).unwrap();
     v["damage_ratio"] = Value::String(format!("f:{}", g.damage_ratio.to_bits()));
     for (i, p) in g.players.iter().enumerate() {
         let port = p.port as usize; let pv = &mut v["players"][i];
         pv["offense_ratio"] = Value::String(format!("f:{}", p.offense_ratio.to_bits())); pv["defense_ratio"] = Value::String(format!("f:{}", p.defense_ratio.to_bits())); pv["model_scale"] = Value::String(format!("f:{}", p.model_scale.to_bits()));
-        if let Some(t) = &p.name_tag { let sl = until_nul(&block[352 + 16 * port..352 + 16 * port + 16]); if sjis(sl).as_deref() != Some(t.0.as_str()) { *oracle = Some("C19 name_tag is not the Shift-JIS decode of the bytes up to the first NUL".into()); } pv["name_tag"] = Value::String(format!("sjis:{}", hex(sl))); }
+        if let Some(t) = &p.name_tag { let sl = until_nul(&block[352 + 16 * port..352 + 16 * port + 16]); if sjis(sl).as_deref() != Some(t.0.as_str()) { c.push(("C19".into(), format!("port {} name_tag is not the Shift-JIS decoding of the field up to its first NUL", port))); } pv["name_tag"] = Value::String(format!("sjis:{}", hex(sl))); }
         if let Some(n) = &p.netplay {
-            let a = until_nul(&block[420 + 31 * port..420 + 31 * port + 31]); let c = until_nul(&block[544 + 10 * port..544 + 10 * port + 10]);
-            if sjis(a).as_deref() != Some(n.name.0.as_str()) || sjis(c).as_deref() != Some(n.code.0.as_str()) { *oracle = Some("C19 netplay name/code decode".into()); }
-            pv["netplay"]["name"] = Value::String(format!("sjis:{}", hex(a))); pv["netplay"]["code"] = Value::String(format!("sjis:{}", hex(c)));
+            let a = until_nul(&block[420 + 31 * port..420 + 31 * port + 31]); let cc = until_nul(&block[544 + 10 * port..544 + 10 * port + 10]);
+            if sjis(a).as_deref() != Some(n.name.0.as_str()) || sjis(cc).as_deref() != Some(n.code.0.as_str()) { c.push(("C19".into(), format!("port {} netplay name/code is not the Shift-JIS decoding of the field up to its first NUL", port))); }
+            pv["netplay"]["name"] = Value::String(format!("sjis:{}", hex(a))); pv["netplay"]["code"] = Value::String(format!("sjis:{}", hex(cc)));
             if let Some(u) = &n.suid { pv["netplay"]["suid"] = Value::String(format!("utf8:{}", hex(u.as_bytes()))); }
         }
     }
@@ -136,107 +321,212 @@ fn canon_start(g: &peppi::game::Start, block: &[u8], oracle: &mut Option<String>
     serde_json::to_string(&v).unwrap()
 }
 
-fn start(rng: &mut Rng, n: usize, out: &mut Vec<Case>) {
-    for k in 0..n {
-        let v = VERS[k % VERS.len()];
+/// C05 stated on the real struct: every exposed field against the Appendix-A offset of the raw block
+pub fn check_start_fields(s: &peppi::game::Start, b: &[u8], c: &mut Vec<(String, String)>) {
+    let mut bad = |what: String| c.push(("C05".into(), what));
+    let be32 = |o: usize| u32::from_be_bytes([b[o], b[o+1], b[o+2], b[o+3]]);
+    if s.bytes.0 != b { bad("raw start block not retained unchanged".into()); }
+    if (s.slippi.version.0, s.slippi.version.1, s.slippi.version.2) != (b[0], b[1], b[2]) { bad("version".into()); }
+    if s.bitfield != [b[4], b[5], b[6], b[7]] { bad("bitfield".into()); }
+    if s.is_raining_bombs != (b[10] != 0) { bad("is_raining_bombs".into()); }
+    if s.is_teams != (b[12] != 0) { bad("is_teams".into()); }
+    if s.item_spawn_frequency != b[15] as i8 { bad("item_spawn_frequency".into()); }
+    if s.self_destruct_score != b[16] as i8 { bad("self_destruct_score".into()); }
+    if s.stage != u16::from_be_bytes([b[18], b[19]]) { bad("stage".into()); }
+    if s.timer != be32(20) { bad("timer".into()); }
+    if s.item_spawn_bitfield != [b[39], b[40], b[41], b[42], b[43]] { bad("item_spawn_bitfield".into()); }
+    if s.damage_ratio.to_bits() != be32(52) { bad("damage_ratio".into()); }
+    if s.random_seed != be32(316) { bad("random_seed".into()); }
+    let occupied: Vec<usize> = (0..4).filter(|p| b[100 + 36 * p + 1] <= 2).collect();
+    let got: Vec<usize> = s.players.iter().map(|p| p.port as usize).collect();
+    if got != occupied { bad(format!("players listed for ports {:?}, type bytes say {:?}", got, occupied)); return; }
+    for pl in &s.players {
+        let p = pl.port as usize; let o = 100 + 36 * p;
+        if pl.character != b[o] { bad(format!("port {} character", p)); }
+        if pl.r#type as u8 != b[o + 1] { bad(format!("port {} type", p)); }
+        if pl.stocks != b[o + 2] { bad(format!("port {} stocks", p)); }
+        if pl.costume != b[o + 3] { bad(format!("port {} costume", p)); }
+        match (&pl.team, s.is_teams) { (Some(t), true) => if t.shade != b[o + 7] || t.color != b[o + 9] { bad(format!("port {} team", p)); }, (None, false) => {}, _ => bad(format!("port {} team presence vs teams flag", p)) }
+        if pl.handicap != b[o + 8] { bad(format!("port {} handicap", p)); }
+        if pl.bitfield != b[o + 12] { bad(format!("port {} bitfield", p)); }
+        match (pl.cpu_level, b[o + 1] == 1) { (Some(l), true) => if l != b[o + 15] { bad(format!("port {} cpu_level", p)); }, (None, false) => {}, _ => bad(format!("port {} cpu_level presence vs type", p)) }
+        if pl.offense_ratio.to_bits() != be32(o + 24) || pl.defense_ratio.to_bits() != be32(o + 28) || pl.model_scale.to_bits() != be32(o + 32) { bad(format!("port {} ratios", p)); }
+        match (&pl.ucf, b.len() >= 352) { (Some(u), true) => { let (d, sd) = (be32(320 + 8 * p), be32(324 + 8 * p)); if u.dash_back.map_or(0, |x| x as u32) != d || u.shield_drop.map_or(0, |x| x as u32) != sd { bad(format!("port {} ucf", p)); } } (None, false) => {}, _ => bad(format!("port {} ucf presence vs block length {}", p, b.len())) }
+        if pl.name_tag.is_some() != (b.len() >= 416) { bad(format!("port {} name_tag presence vs block length {}", p, b.len())); }
+        if pl.netplay.is_some() != (b.len() >= 584) { bad(format!("port {} netplay presence vs block length {}", p, b.len())); }
+        if let Some(n) = &pl.netplay { match (&n.suid, b.len() >= 700) { (Some(u), true) => if u.as_bytes() != until_nul(&b[584 + 29 * p..584 + 29 * p + 29]) { bad(format!("port {} suid", p)); }, (None, false) => {}, _ => bad(format!("port {} suid presence", p)) } }
+    }
+    match (s.is_pal, b.len() >= 417) { (Some(x), true) => if x != (b[416] != 0) { bad("is_pal".into()); }, (None, false) => {}, _ => bad("is_pal presence".into()) }
+    match (s.is_frozen_ps, b.len() >= 418) { (Some(x), true) => if x != (b[417] != 0) { bad("is_frozen_ps".into()); }, (None, false) => {}, _ => bad("is_frozen_ps presence".into()) }
+    match (&s.scene, b.len() >= 420) { (Some(x), true) => if (x.minor, x.major) != (b[418], b[419]) { bad("scene".into()); }, (None, false) => {}, _ => bad("scene presence".into()) }
+    match (&s.language, b.len() >= 701) { (Some(x), true) => if *x as u8 != b[700] { bad("language".into()); }, (None, false) => {}, _ => bad("language presence".into()) }
+    match (&s.r#match, b.len() >= 760) { (Some(m), true) => if m.id.as_bytes() != until_nul(&b[701..752]) || m.game != be32(752) || m.tiebreaker != be32(756) { bad("match info".into()); }, (None, false) => {}, _ => bad("match presence".into()) }
+}
+
+fn start(rng: &mut Rng, ctx: &mut Ctx) {
+    let classes = version_classes();
+    for k in 0..ctx.n {
+        let v = classes[k % classes.len()];
         let mut pl = vec![]; for p in 0..4u8 { pl.push((p, (rng.next() % 5) as u8, (rng.next() % 30) as u8)); }
         let mut b = start_block(v, &pl, rng);
-        // random (mostly valid) content in the optional tails
+        if k % 4 == 0 { b[12] = 0; } // teams off
         if b.len() >= 352 { for p in 0..4 { for j in 0..2 { let val = [0u32, 1, 2, 3][(rng.next() % 7).min(3) as usize % 4]; let vv = if rng.next() % 9 == 0 { val } else { val % 3 }; b[320 + 8 * p + 4 * j..320 + 8 * p + 4 * j + 4].copy_from_slice(&vv.to_be_bytes()); } } }
-        if b.len() >= 416 { for p in 0..4 { let l = (rng.next() % 17) as usize; for j in 0..l.min(16) { b[352 + 16 * p + j] = match rng.next() % 6 { 0 => 0x82, 1 => 0xa0, 2 => 0xb1, 3 => 0, _ => 0x41 + (rng.next() % 26) as u8 }; } } }
-        if b.len() >= 584 { for p in 0..4 { let l = (rng.next() % 12) as usize; for j in 0..l { b[420 + 31 * p + j] = 0x30 + (rng.next() % 40) as u8; } for j in 0..(rng.next() % 9) as usize { b[544 + 10 * p + j] = 0x41 + (rng.next() % 26) as u8; } } }
+        if b.len() >= 416 { for p in 0..4 { let l = (rng.next() % 17) as usize; for j in 0..l.min(16) { b[352 + 16 * p + j] = match rng.next() % 8 { 0 => 0x82, 1 => 0xa0, 2 => 0xb1, 3 => 0, 4 => 0x81, 5 => 0x40 + (rng.next() % 60) as u8, _ => 0x41 + (rng.next() % 26) as u8 }; } } }
+        if b.len() >= 584 { for p in 0..4 { let l = (rng.next() % 32) as usize; for j in 0..l.min(31) { b[420 + 31 * p + j] = if rng.next() % 12 == 0 { 0 } else { 0x30 + (rng.next() % 40) as u8 }; } for j in 0..(rng.next() % 11) as usize { b[544 + 10 * p + j.min(9)] = if rng.next() % 12 == 0 { 0x83 } else { 0x41 + (rng.next() % 26) as u8 }; } } }
         if b.len() >= 700 { for p in 0..4 { for j in 0..(rng.next() % 29) as usize { b[584 + 29 * p + j] = 0x61 + (rng.next() % 26) as u8; } } }
         if b.len() >= 701 { b[700] = (rng.next() % 3) as u8 % 2; }
         if b.len() >= 760 { for j in 0..(rng.next() % 51) as usize { b[701 + j] = 0x30 + (rng.next() % 10) as u8; } }
         if k % 7 == 6 { let cut = (rng.next() as usize) % b.len(); b.truncate(cut.max(1)); }
-        // run through the real reader: wrap into a minimal file
+        if k % 11 == 10 { b.extend(rng.nbytes(40)); } // longer than any known layout (newer version)
         let r = Replay { v, start_block: b.clone(), gecko: None, frames: vec![], end: None, double_end: false, metadata: None, extra_payloads: vec![] };
         let file = encode(&r);
-        let mut oracle = None;
-        let res = std::panic::catch_unwind(std::panic::AssertUnwindSafe(|| slippi::read(Cursor::new(&file), None).map(|g| canon_start(&g.start, &b, &mut oracle))));
+        let mut fails = vec![];
+        let res = std::panic::catch_unwind(std::panic::AssertUnwindSafe(|| slippi::read(Cursor::new(&file), None).map(|g| { check_start_fields(&g.start, &b, &mut fails); canon_start(&g.start, &b, &mut fails) })));
         let line = match res { Err(_) => "panic".to_string(), Ok(Err(_)) => "err".to_string(), Ok(Ok(j)) => format!("ok {}", j) };
         let mut sj_ok = true;
-        for p in 0..4 { if b.len() >= 416 { sj_ok &= sjis(until_nul(&b[352 + 16 * p..352 + 16 * p + 16])).is_some(); }
+        for p in 0..4 {
+            if b.len() >= 416 { sj_ok &= sjis(until_nul(&b[352 + 16 * p..352 + 16 * p + 16])).is_some(); }
             if b.len() >= 584 { sj_ok &= sjis(until_nul(&b[420 + 31 * p..420 + 31 * p + 31])).is_some() && sjis(until_nul(&b[544 + 10 * p..544 + 10 * p + 10])).is_some(); } }
-        out.push(Case { line: format!("start {} {}", sj_ok as u8, hex(&b)), impl_out: line, oracle_fail: oracle, tags: vec![format!("v{}.{}", v.0, v.1), format!("len{}", b.len())] });
+        let mut c = Case::new(format!("start {} {}", sj_ok as u8, hex(&b)), line.clone()); c.oracle = fails;
+        if line == "panic" { c.fail("C06", "panic while parsing a Game Start block"); }
+        if !sj_ok && line.starts_with("ok") { c.fail("C19", "a name field with an invalid Shift-JIS sequence was accepted"); }
+        c.tags = vec![format!("v{}.{}", v.0, v.1), format!("len{}", b.len()), format!("sjis{}", sj_ok as u8)];
+        ctx.push(c);
+    }
+    // Game End blocks
+    for k in 0..(ctx.n / 3).max(30) {
+        let len = [1usize, 2, 6, 6, 2, 1, 7, 9, 3, 4, 5][k % 11];
+        let mut e: Vec<u8> = vec![[0u8, 1, 2, 3, 7, 4, 255][(rng.next() % 7) as usize]];
+        if len >= 2 { e.push([255u8, 0, 1, 2, 3, 4, 128][(rng.next() % 7) as usize]); }
+        for _ in 2..len { e.push([255u8, 0, 1, 2, 3, 4, 250][(rng.next() % 7) as usize]); }
+        let v: V = if len >= 6 { (3, 16, 0) } else if len >= 2 { (3, 0, 0) } else { (1, 0, 0) };
+        let mut r = simple(v, &[(0, 0, 2)], 0, &[], rng); r.end = Some(e.clone()); r.metadata = None;
+        let file = encode(&r);
+        let mut c = Case::new(format!("end {}", hex(&e)), String::new());
+        let res = std::panic::catch_unwind(|| slippi::read(Cursor::new(&file), None));
+        match res { Err(_) => { c.impl_out = "panic".into(); c.fail("C06", "panic while parsing a Game End block"); } Ok(Err(_)) => c.impl_out = "err".into(),
+            Ok(Ok(g)) => { let ge = g.end.unwrap(); c.impl_out = format!("ok {}", serde_json::to_string(&serde_json::to_value(&ge).unwrap()).unwrap());
+                if ge.bytes.0 != e { c.fail("C05", "raw Game End block not retained"); }
+                if ge.method as u8 != e[0] { c.fail("C05", "end method"); }
+                match (ge.lras_initiator, e.len() >= 2) { (Some(x), true) => { let exp = if e[1] == 255 { None } else { Some(e[1]) }; if x.map(|p| p as u8) != exp { c.fail("C05", "lras_initiator"); } } (None, false) => {} _ => c.fail("C05", "lras_initiator presence") }
+                match (&ge.players, e.len() >= 6) { (Some(ps), true) => { let exp: Vec<(u8, u8)> = (0..4).filter(|i| e[2 + i] != 255).map(|i| (i as u8, e[2 + i])).collect(); let got: Vec<(u8, u8)> = ps.iter().map(|p| (p.port as u8, p.placement)).collect(); if got != exp { c.fail("C05", format!("placements {:?} != {:?}", got, exp)); } } (None, false) => {} _ => c.fail("C05", "placements presence") }
+            } }
+        c.tags = vec![format!("endlen{}", len)]; ctx.push(c);
     }
 }
 
-fn gen_tree(rng: &mut Rng, depth: usize, out: &mut Vec<u8>) {
+pub fn gen_tree(rng: &mut Rng, depth: usize, out: &mut Vec<u8>) {
     let n = (rng.next() % 4) as usize;
     for i in 0..n {
         let klen = (rng.next() % 4) as usize; out.push(b'U'); out.push(klen as u8 + 1); out.push(b'a' + i as u8); for _ in 0..klen { out.push(b'a' + (rng.next() % 26) as u8); }
         match rng.next() % 4 {
-            0 => { out.push(b'l'); out.extend(((rng.next() >> 16) as i32).to_be_bytes()); }
+            0 => { out.push(b'l'); let x = match rng.next() % 5 { 0 => i32::MIN, 1 => i32::MAX, 2 => -1, _ => (rng.next() >> 16) as i32 }; out.extend(x.to_be_bytes()); }
             1 => { let s: Vec<u8> = match rng.next() % 4 { 0 => vec![], 1 => "né😀".as_bytes().to_vec(), 2 => vec![b'x'; 255], _ => (0..(rng.next() % 9)).map(|_| 0x20 + (rng.next() % 90) as u8).collect() }; out.push(b'S'); out.push(b'U'); out.push(s.len() as u8); out.extend(s); }
             _ => { if depth < 4 { out.push(b'{'); gen_tree(rng, depth + 1, out); out.push(b'}'); } else { out.push(b'l'); out.extend(7i32.to_be_bytes()); } }
         }
     }
 }
-fn json_dump(m: &serde_json::Map<String, serde_json::Value>) -> String {
+pub fn json_dump(m: &serde_json::Map<String, serde_json::Value>) -> String {
     let mut s = String::new();
     for (k, v) in m { s += &hex(k.as_bytes()); s.push('='); match v { serde_json::Value::String(x) => { s += "s:"; s += &hex(x.as_bytes()); } serde_json::Value::Number(n) => { s += &format!("i:{}", n) } serde_json::Value::Object(o) => { s.push('{'); s += &json_dump(o); s.push('}'); } _ => s += "?" } s.push(';'); }
     s
 }
-fn ubj(rng: &mut Rng, n: usize, out: &mut Vec<Case>) {
-    for k in 0..n {
+/// independent reference decoder of a UBJSON map body (keys `U len bytes`, values S/l/{ ) into the same dump
+fn ref_tree(b: &[u8], pos: &mut usize, out: &mut String) -> Option<()> {
+    loop {
+        match *b.get(*pos)? { b'}' => { *pos += 1; return Some(()); } b'U' => {} _ => return None }
+        let l = *b.get(*pos + 1)? as usize; let k = b.get(*pos + 2..*pos + 2 + l)?; *pos += 2 + l; std::str::from_utf8(k).ok()?;
+        out.push_str(&hex(k)); out.push('=');
+        match *b.get(*pos)? {
+            b'l' => { let x = i32::from_be_bytes(b.get(*pos + 1..*pos + 5)?.try_into().ok()?); *pos += 5; out.push_str(&format!("i:{}", x)); }
+            b'S' => { if *b.get(*pos + 1)? != b'U' { return None; } let l = *b.get(*pos + 2)? as usize; let s = b.get(*pos + 3..*pos + 3 + l)?; std::str::from_utf8(s).ok()?; *pos += 3 + l; out.push_str("s:"); out.push_str(&hex(s)); }
+            b'{' => { *pos += 1; out.push('{'); ref_tree(b, pos, out)?; out.push('}'); }
+            _ => return None }
+        out.push(';');
+    }
+}
+fn ubj(rng: &mut Rng, ctx: &mut Ctx) {
+    for k in 0..ctx.n {
         let mut body = vec![]; gen_tree(rng, 1, &mut body);
-        if k % 40 == 39 { let d = 120 + (rng.next() % 20) as usize; body.clear(); for _ in 0..d - 1 { body.extend(b"U\x01a{"); } for _ in 0..d - 1 { body.push(b'}'); } }
-        if k % 9 == 8 && !body.is_empty() { let i = (rng.next() as usize) % body.len(); body[i] = (rng.next() >> 8) as u8; }
+        let mut clean = true;
+        if k % 40 == 39 { let d = 120 + (rng.next() % 20) as usize; body.clear(); for _ in 0..d - 1 { body.extend(b"U\x01a{"); } for _ in 0..d - 1 { body.push(b'}'); } clean = d <= 127; }
+        if k % 9 == 8 && !body.is_empty() { let i = (rng.next() as usize) % body.len(); body[i] = (rng.next() >> 8) as u8; clean = false; }
         let mut r = simple((3,16,0), &[(0,0,2)], 1, &[], rng); r.metadata = Some(body.clone());
         let file = encode(&r);
-        let mut oracle = None;
+        let mut fails: Vec<(String, String)> = vec![];
+        ctx.starting(&format!("ubj {}", hex(&body)));
         let res = std::panic::catch_unwind(std::panic::AssertUnwindSafe(|| { let mut cur = Cursor::new(&file); slippi::read(&mut cur, None).map(|g| { let m = g.metadata.clone().unwrap(); let mut o = vec![]; let w = slippi::write(&mut o, &g);
-            // bytes after the map's own closing brace (the file's final brace included), from the reader's position
             let rest = file.len() as u64 - cur.position() + 1;
-            if w.is_ok() && o != file && k % 9 != 8 { oracle = Some("C16 metadata bytes not reproduced".to_string()); }
-            // the model's `back` is the re-encoded map body: recover it from the written file by locating the key
+            if clean { if w.is_err() || o != file { fails.push(("C16".into(), "metadata bytes not reproduced by the writer".into())); }
+                let mut exp = String::new(); let mut pos = 0; let mut bb = body.clone(); bb.push(b'}');
+                if ref_tree(&bb, &mut pos, &mut exp).is_some() && json_dump(&m) != exp { fails.push(("C16".into(), format!("tree {} != reference {}", json_dump(&m), exp))); } }
             let key = b"U\x08metadata{";
             let back = if w.is_ok() { let start = o.windows(key.len()).rposition(|w| w == key).unwrap() + key.len(); hex(&o[start..o.len() - 2]) } else { "?".into() };
             format!("ok {} rest={} back={}", json_dump(&m), rest, back) }) }));
-        let line = match res { Err(_) => "panic".to_string(), Ok(Err(_)) => "err".to_string(), Ok(Ok(j)) => j };
+        let line = match res { Err(_) => { fails.push(("C06".into(), "panic in the metadata reader".into())); "panic".to_string() } Ok(Err(_)) => { if clean { fails.push(("C16".into(), "well-formed metadata rejected".into())); } "err".to_string() } Ok(Ok(j)) => j };
         let mut arg = body.clone(); arg.push(b'}'); arg.push(b'}');
-        out.push(Case { line: format!("ubj {}", hex(&arg)), impl_out: line, oracle_fail: oracle, tags: vec![format!("len{}", (body.len() / 50).min(9))] });
+        let mut c = Case::new(format!("ubj {}", hex(&arg)), line); c.oracle = fails; c.tags = vec![format!("len{}", (body.len() / 50).min(9)), format!("clean{}", clean as u8)];
+        ctx.push(c);
     }
 }
 
-fn canon_end(e: &peppi::game::End) -> String { serde_json::to_string(&serde_json::to_value(e).unwrap()).unwrap() }
+pub fn canon_end(e: &peppi::game::End) -> String { serde_json::to_string(&serde_json::to_value(e).unwrap()).unwrap() }
 
-fn peppi_suite(rng: &mut Rng, n: usize, out: &mut Vec<Case>) {
+fn peppi_suite(rng: &mut Rng, ctx: &mut Ctx) {
     use std::io::Read;
     use arrow2::io::ipc::read::{read_stream_metadata, StreamReader, StreamState};
     let comps = [None, Some(arrow2::io::ipc::write::Compression::LZ4), Some(arrow2::io::ipc::write::Compression::ZSTD)];
-    for k in 0..n {
-        let (r, tags) = gen_replay(rng, k);
+    let go = GenOpts { max_frames: if ctx.thorough { 25 } else { 7 }, newer: false };
+    for k in 0..ctx.n {
+        let (r, tags) = gen_replay(rng, k, &go);
         let b = encode(&r);
-        let comp = comps[k % 3];
-        let mut oracle = None;
+        let comp = comps[k % 3]; let hash = k % 2 == 0;
+        let zero_ports = slots_of(&r.start_block).is_empty();
+        let mut fails: Vec<(String, String)> = vec![];
         let res = std::panic::catch_unwind(std::panic::AssertUnwindSafe(|| -> Result<String, String> {
-            let g = slippi::read(Cursor::new(&b), None).map_err(|_| "err".to_string())?;
-            let start = g.start.clone(); let endc = g.end.clone();
+            let g = slippi::read(Cursor::new(&b), Some(&read_opts(false, hash))).map_err(|_| "err".to_string())?;
+            let start = g.start.clone(); let endc = g.end.clone(); let h0 = g.hash.clone(); let q0 = g.quirks.map(|q| q.double_game_end);
+            let nframes = g.frames.id.len(); let has_gecko = g.gecko_codes.is_some(); let md0 = g.metadata.clone();
             let mut buf = vec![];
             peppi::io::peppi::write(&mut buf, g, Some(&peppi::io::peppi::ser::Opts { compression: comp })).map_err(|_| "err".to_string())?;
-            if &buf[..10] != b"peppi.json" { oracle = Some("C18 signature not at offset 0".into()); }
-            // C02 oracle: back to .slp
-            match peppi::io::peppi::read(Cursor::new(&buf), None) { Ok(g2) => { let mut o = vec![]; if slippi::write(&mut o, &g2).is_err() || o != b { oracle = Some("C02 slp -> slpp -> slp differs".into()); } } Err(e) => oracle = Some(format!("C02 slpp unreadable: {}", e)) }
-            let mut parts = vec![];
+            if &buf[..10] != b"peppi.json" { fails.push(("C18".into(), "file signature `peppi.json` is not at offset 0".into())); }
+            // determinism: write the same game again
+            { let g = slippi::read(Cursor::new(&b), Some(&read_opts(false, hash))).unwrap(); let mut buf2 = vec![]; let _ = peppi::io::peppi::write(&mut buf2, g, Some(&peppi::io::peppi::ser::Opts { compression: comp })); if buf2 != buf { fails.push(("C18".into(), "writing the same game twice gives different bytes".into())); } }
+            // back to .slp
+            match peppi::io::peppi::read(Cursor::new(&buf), None) {
+                Ok(g2) => { let mut o = vec![]; if slippi::write(&mut o, &g2).is_err() || o != b { fails.push(("C02".into(), "slp -> slpp -> slp differs from the original".into())); }
+                    if g2.hash != h0 { fails.push(("C02".into(), "stored hash changed through .slpp".into())); fails.push(("C11".into(), "stored hash not carried unchanged through .slpp".into())); }
+                    if g2.quirks.map(|q| q.double_game_end) != q0 { fails.push(("C02".into(), "quirk flags changed through .slpp".into())); }
+                    if g2.metadata != md0 { fails.push(("C16".into(), "metadata tree / key order changed through .slpp".into())); } }
+                Err(e) => { fails.push(("C02".into(), format!("written .slpp cannot be read: {}", e))); } }
+            // skip-frames option of the .slpp reader
+            match peppi::io::peppi::read(Cursor::new(&buf), Some(&peppi::io::peppi::de::Opts { skip_frames: true })) {
+                Ok(g3) => { if start_json(&g3.start) != start_json(&start) || end_json(&g3.end) != end_json(&endc) || g3.metadata != md0 { fails.push(("C10".into(), ".slpp skip-frames: start/end/metadata differ".into())); } if g3.frames.id.len() != 0 { fails.push(("C10".into(), ".slpp skip-frames returned frames".into())); }
+                    match write_slp(&g3) { Ok(y) => if read_line(&y, false, false).1.is_none() { fails.push(("C10".into(), ".slpp skip-frames result cannot be re-read after writing".into())); }, Err(e) => fails.push(("C10".into(), format!(".slpp skip-frames result cannot be written: {}", e))) } }
+                Err(e) => fails.push(("C10".into(), format!(".slpp skip-frames read failed: {}", e))) }
+            let mut parts = vec![]; let mut names = vec![];
             for e in tar::Archive::new(Cursor::new(&buf)).entries().unwrap() {
                 let mut e = e.unwrap(); let name = e.path().unwrap().to_string_lossy().to_string(); let mut c = vec![]; e.read_to_end(&mut c).unwrap();
+                names.push(name.clone());
                 let content = match name.as_str() {
-                    "peppi.json" => String::from_utf8(c).unwrap(),
-                    "metadata.json" => { let v: serde_json::Value = serde_json::from_slice(&c).unwrap(); match v { serde_json::Value::Object(m) => format!("{{{}}}", json_dump(&m)), _ => "null".into() } }
-                    "start.json" => { let mut o2 = None; let s = canon_start(&start, &start.bytes.0, &mut o2); if c != serde_json::to_vec(&start).unwrap() || serde_json::from_slice::<serde_json::Value>(&c).is_err() { oracle = Some("C18 start.json is not the rendering of the start block".into()); } s }
-                    "end.json" => { if Some(c.clone()) != endc.as_ref().map(|e| serde_json::to_vec(e).unwrap()) { oracle = Some("C18 end.json".into()); } canon_end(endc.as_ref().unwrap()) }
+                    "peppi.json" => { if serde_json::from_slice::<serde_json::Value>(&c).is_err() { fails.push(("C18".into(), "peppi.json is not valid JSON".into())); } String::from_utf8(c).unwrap() }
+                    "metadata.json" => { match serde_json::from_slice::<serde_json::Value>(&c) { Ok(serde_json::Value::Object(m)) => { if Some(&m) != md0.as_ref() { fails.push(("C16".into(), "metadata.json is not the metadata tree".into())); } format!("{{{}}}", json_dump(&m)) } Ok(_) => "null".into(), Err(_) => { fails.push(("C18".into(), "metadata.json is not valid JSON".into())); "?".into() } } }
+                    "start.json" => { let mut o2 = vec![]; let s = canon_start(&start, &start.bytes.0, &mut o2); if c != serde_json::to_vec(&start).unwrap() || serde_json::from_slice::<serde_json::Value>(&c).is_err() { fails.push(("C18".into(), "start.json is not the JSON rendering of the start block".into())); } s }
+                    "end.json" => { if Some(c.clone()) != endc.as_ref().map(|e| serde_json::to_vec(e).unwrap()) { fails.push(("C18".into(), "end.json is not the JSON rendering of the end block".into())); } canon_end(endc.as_ref().unwrap()) }
                     "frames.arrow" => { let mut rd = Cursor::new(&c[8..]); let md = read_stream_metadata(&mut rd).unwrap(); let mut sr = StreamReader::new(rd, md, None);
                         match sr.next() { Some(Ok(StreamState::Some(chunk))) => crate::arrowdump::dump(chunk.arrays()[0].as_ref()), _ => "?".into() } }
                     _ => hex(&c),
                 };
                 parts.push(format!("{}={}", name, content));
             }
+            let mut exp: Vec<&str> = vec!["peppi.json", "metadata.json", "start.json", "start.raw"];
+            if endc.is_some() { exp.push("end.json"); exp.push("end.raw"); } if has_gecko { exp.push("gecko_codes.raw"); } if nframes > 0 { exp.push("frames.arrow"); }
+            if names != exp { fails.push(("C18".into(), format!("entries {:?} != {:?}", names, exp))); }
             Ok(format!("ok {}", parts.join("|")))
         }));
-        let line = match res { Err(_) => "panic".to_string(), Ok(Err(e)) => e, Ok(Ok(s)) => s };
-        let mut t2 = tags.clone(); t2.push(format!("comp{}", k % 3));
-        out.push(Case { line: format!("pwrite 1 {}", hex(&b)), impl_out: line, oracle_fail: oracle, tags: t2 });
+        let line = match res { Err(_) => { if zero_ports && !r.frames.is_empty() { fails.push(("C02".into(), "KNOWN:zero-ports panic in peppi::write (no occupied port)".into())); } else { fails.push(("C02".into(), "panic in the .slpp writer/reader".into())); fails.push(("C18".into(), "panic in the .slpp writer".into())); } "panic".to_string() }, Ok(Err(e)) => { fails.push(("C02".into(), "well-formed replay could not be converted to .slpp".into())); e }, Ok(Ok(s)) => s };
+        let hs = if hash { format!("xxh3:{:016x}", xxhash_rust::xxh3::xxh3_64(&b)) } else { "-".to_string() };
+        let mut c = Case::new(format!("pwrite 1 {} {}", hs, hex(&b)), line); c.oracle = fails; c.tags = tags; c.tags.push(format!("comp{}", k % 3));
+        ctx.push(c);
     }
 }
